@@ -3,7 +3,7 @@
      fw/table/fib-strategy-hashtable.go  -> ht_*     (real table, virtual table with md, virtual-name sets; parameter m)
      spec                                -> spec_*   (a map name -> entry, longest-prefix match by definition)
    No proofs here. *)
-From Tables Require Export ModelAssoc.
+From Tables Require Export ModelAssoc ModelTree.
 Open Scope N_scope.
 
 Definition nexthop := (N * N)%type.          (* (face id, cost) *)
@@ -46,41 +46,9 @@ Fixpoint rem_nh_swap (l : list nexthop) (f : N) : list nexthop :=
 Record tree := mktree { nodes : amap fent; pfx : list name }.   (* pfx = fibPrefixes side map (key set) *)
 Definition tree_init : tree := mktree [([], mkfent [] (Some default_strategy))] [].
 
-(* findLongestPrefixEntryEnc: child by child, stops at the first missing child; returns the node's path *)
-Fixpoint descend (t : amap fent) (pre rest : name) : name :=
-  match rest with
-  | [] => pre
-  | c :: r => match get t (pre ++ [c]) with Some _ => descend t (pre ++ [c]) r | None => pre end
-  end.
-Definition lpm_node (t : amap fent) (n : name) : name := descend t [] n.
-(* findExactMatchEntryEnc *)
-Definition find_exact (t : amap fent) (n : name) : option fent :=
-  if name_eqb (lpm_node t n) n then get t n else None.
-(* fillTreeToPrefixEnc: new empty nodes below the longest existing one *)
-Fixpoint add_chain (t : amap fent) (pre rest : name) : amap fent :=
-  match rest with
-  | [] => t
-  | c :: r => add_chain (set t (pre ++ [c]) empty_ent) (pre ++ [c]) r
-  end.
-Definition fill (t : amap fent) (n : name) : amap fent :=
-  let d := lpm_node t n in add_chain t d (skipn (length d) n).
-
-(* len(curNode.children) != 0 *)
-Definition is_child_of (p k : name) : bool := (Nat.eqb (length k) (S (length p))) && is_prefix p k.
-Definition has_child (t : amap fent) (p : name) : bool := existsb (fun kv => is_child_of p (fst kv)) t.
-
-(* pruneIfEmpty, starting at the node firstn k n: while it is not the root and has no children, next hops or strategy,
-   unlink it and continue with its parent *)
-Fixpoint prune_at (t : amap fent) (n : name) (k : nat) : amap fent :=
-  match k with
-  | O => t
-  | S k' => let p := firstn k n in
-            match get t p with
-            | Some e => if negb (has_child t p) && ent_empty e then prune_at (del t p) n k' else t
-            | None => t
-            end
-  end.
-Definition prune (t : amap fent) (n : name) : amap fent := prune_at t n (length n).
+(* the tree primitives (descend, find_exact, fill, has_child, prune) are generic in the payload: ModelTree.v *)
+Definition fib_fill (t : amap fent) (n : name) : amap fent := fill empty_ent t n.
+Definition fib_prune (t : amap fent) (n : name) : amap fent := prune ent_empty t n.
 
 (* walk towards the root until a node with next hops / a strategy *)
 Fixpoint walk_nh (t : amap fent) (n : name) (k : nat) : list nexthop :=
@@ -106,29 +74,29 @@ Definition tree_find_strat (t : tree) (n : name) : option N :=
 Definition tree_step (t : tree) (o : fibop) : tree :=
   match o with
   | Ins n f c =>
-      let t1 := fill (nodes t) n in
+      let t1 := fib_fill (nodes t) n in
       let e := match get t1 n with Some e => e | None => empty_ent end in
       mktree (set t1 n (mkfent (upd_nh (nhs e) f c) (strat e)))
              (if has_face (nhs e) f then pfx t else nadd n (pfx t))
   | Clr n =>
       match find_exact (nodes t) n with
-      | Some e => mktree (prune (set (nodes t) n (mkfent [] (strat e))) n) (nrem n (pfx t))
+      | Some e => mktree (fib_prune (set (nodes t) n (mkfent [] (strat e))) n) (nrem n (pfx t))
       | None => t
       end
   | Rem n f =>
       match find_exact (nodes t) n with
       | Some e => let l := rem_nh (nhs e) f in
-                  mktree (prune (set (nodes t) n (mkfent l (strat e))) n)
+                  mktree (fib_prune (set (nodes t) n (mkfent l (strat e))) n)
                          (match l with [] => nrem n (pfx t) | _ => pfx t end)
       | None => t
       end
   | SetS n s =>
-      let t1 := fill (nodes t) n in
+      let t1 := fib_fill (nodes t) n in
       let e := match get t1 n with Some e => e | None => empty_ent end in
       mktree (set t1 n (mkfent (nhs e) (Some s))) (pfx t)
   | UnS n =>
       match find_exact (nodes t) n with
-      | Some e => mktree (prune (set (nodes t) n (mkfent (nhs e) None)) n) (pfx t)
+      | Some e => mktree (fib_prune (set (nodes t) n (mkfent (nhs e) None)) n) (pfx t)
       | None => t
       end
   end.
